@@ -15,6 +15,8 @@ R2.7  the cycle tracker's enter/exit calls are balanced on every path of _parse_
       unrelated schemas into zero-field depth placeholders)                                   [typestate shared with C08]
 R2.11 the resolver's by-name registry fallback is taken only when the schema's own type agrees with the registered schema's
 R2.12 a schema that declares properties is never rendered as a TypeAlias (the alias decision is false for every such input)
+R2.15 writer / reader agreement on registry keys: the key a raw name is registered under is recorded, and $ref resolution / build_schemas
+      find a schema through that index (no second parse of a schema whose sanitised name differs from its declared name)
 R2.14 the sanitised key a schema is registered under is tested against the declared names (it never shadows another declared schema)
 R2.13 the oneOf / anyOf parsers drop a member only when it has no type, properties, items, enum or composition (cycle placeholders stay)
 """
@@ -112,6 +114,9 @@ def run(repo: Repo, rep: Report, tier: str) -> None:
     rule_properties_never_alias(repo, rep, "R2.12")
     rule_union_members_kept(repo, rep, "R2.13")
     rule_key_does_not_shadow_declared_name(repo, rep, "R2.14")
+    from rules._registry import rule_raw_name_index
+
+    rule_raw_name_index(repo, rep, "R2.15")
     # ---------------------------------------------------------------- R2.2 name content
     ucd = repo.module("core.parsing.unified_cycle_detection")
     ucc = ucd.func("unified_cycle_check")
